@@ -151,11 +151,7 @@ class C08World(C01World):
         for a in ex.actors:
             if "." in a.name:
                 continue
-            if (self.max_partitions and len(self.partitioned) < self.max_partitions and a.name not in self.partitioned
-                    and a.state != DONE and (not self.cfg.get("pause_only") or a.name in self.cfg["pause_only"])
-                    and self.lock_variant == "cas" and self._holds_lock(a.name)):
-                opts.append(("partition-from-lock", a.name))
-            if (self.max_partitions and a is ex.last and a.state == PARKED and a.wake is not None and not a.frozen
+            if (a.name in self.partitioned and a is ex.last and a.state == PARKED and a.wake is not None and not a.frozen
                     and ENV.clock < a.wake):
                 # the committer that was running sleeps (retry back-off) and nobody else gets scheduled meanwhile:
                 # time simply passes.  Without this option "the sleeper continues" would cost a preemption.
@@ -164,7 +160,9 @@ class C08World(C01World):
                 opts.append(("resume", a.name))
             elif a.state != DONE and ex.jumps < self.max_pauses and a.steps > 0 and \
                     (not self.cfg.get("pause_only") or a.name in self.cfg["pause_only"]) and self._holds_lock(a.name):
-                opts.append(("pause+61s", a.name))
+                # with max_partitions the pause comes with a partition: from now on the committer (and its heartbeat)
+                # cannot reach the lock object any more - renewals and fence reads fail with 503
+                opts.append(("pause+61s+cut-off-from-lock" if self.max_partitions else "pause+61s", a.name))
         return opts
 
     def _holds_lock(self, name: str) -> bool:
@@ -184,6 +182,8 @@ class C08World(C01World):
                 if a.name == name and a.wake is not None:
                     ENV.clock = max(ENV.clock, round(a.wake, 6))
             return
+        if kind == "pause+61s+cut-off-from-lock":
+            self.partitioned.add(name)
         for a in ex.actors:
             if root_actor(a.name) == name:
                 a.frozen = (kind != "resume")
@@ -287,8 +287,8 @@ def configs(tier: str, seed: int) -> List[Dict[str, Any]]:
     add(("append", "append"), "cas", init="pointer_lost", bound=2 if tier == "quick" else 3)
     if tier != "quick":
         add(("append", "append"), "cas", bound=1, max_pauses=1, pause_only=["A"], init="pointer_lost")
-        # the committer is cut off from the lock object (renewals and fence reads fail) while its lease lapses
-        add(("append", "append"), "cas", bound=1, max_pauses=1, max_partitions=1, pause_only=["A"])
+    # the committer is paused past its lease and, from then on, cut off from the lock object (renewals and fence reads fail)
+    add(("append", "append"), "cas", bound=1, max_pauses=1, max_partitions=1, pause_only=["A"])
     if tier == "quick":
         add(("append", "append"), "cas", bound=1, max_pauses=1, pause_only=["A"])  # symmetric actors: pausing A suffices
         add(("append", "expire"), "cas", bound=0, max_pauses=1)
